@@ -22,7 +22,7 @@ META = dict(
 
 def tasks(tier):
     q = tier == "quick"
-    t = loop.loop_tasks([dict(policy=p, cons=["eq0"]) for p in loop.POLICIES] + [dict(policy="DualNorm", cons=["ge"]), dict(policy="ParetoDecrease", cons=[])], 2 if q else 3)
+    t = loop.loop_tasks([dict(policy=p, cons=["eq0"]) for p in loop.POLICIES] + [dict(policy="DualNorm", cons=["ge"]), dict(policy="ParetoDecrease", cons=[]), dict(policy="DualNorm", cons=["eq0"], step_failures=True), dict(policy="ObjectiveFilter", cons=["ge"], step_failures=True)], 2 if q else 3)
     t += ctrl.ctrl_tasks(tier)
     o = dict(nra=True, timeout_ms=120000)
     for sv in steps.SOLVERS:
